@@ -241,7 +241,13 @@ func (c *s3Cache) Get(ctx context.Context, kind cache.EntryKind, hash string, _ 
 	logResponse(c.accessLogger, "DOWNLOAD", c.bucket, c.objectKey(hash, kind), nil)
 
 	if kind == cache.CAS && c.v2mode {
-		return casblob.ExtractLogicalSize(rc)
+		lrc, size, err := casblob.ExtractLogicalSize(rc)
+		if err != nil {
+			// No reader is returned in this case, so nobody else can
+			// close the object (and release its connection).
+			_ = rc.Close()
+		}
+		return lrc, size, err
 	}
 
 	return rc, info.Size, nil
